@@ -106,7 +106,10 @@ class Prop(BaseProp):
         # leaderless variant for some documented items: unindented, letter-initial lines
         for it in mod.walk():
             if it.doc is not None and it.kind != "dangling" and rng.random() < 0.1:
-                it.doc = [f"Line {{L{it.uid}.{k}}} text" if rng.random() < 0.8 else f"word{{L{it.uid}.{k}}}"
+                # (with '#', '[' and ']' in the middle of a line: only a leading run of them is comment syntax)
+                mid = ["text", "text", "see items[0] and items[-1] here", "issue #42 applies", "one of [0, 1] (#3) ok", "C# [out] done",
+                       "a ]]odd[[ b", "x #[[ y"]
+                it.doc = [f"Line {{L{it.uid}.{k}}} {rng.choice(mid)}" if rng.random() < 0.8 else f"word{{L{it.uid}.{k}}}"
                           for k in range(rng.randint(1, 4))]
                 it.leaderless = True
                 res.count("leaderless_docs")
